@@ -77,13 +77,15 @@ type exec struct {
 	harness   string
 	uuids     []*Term
 	held      []*heldLock
-	pending   []func()
 	rpcPeer   value
 	orderSites map[string]bool
 	notes     []string
 	assumes   int
-	inGo        bool
-	blockedGo   int
+	coros       []*coro
+	cur         *coro
+	scheduling  bool
+	mainParks   int
+	goPanic     interface{}
 	schedNondet bool
 	ptrIDs      map[interface{}]uintptr
 	lazyLog     []int
@@ -188,12 +190,14 @@ func (ex *exec) resetPath(prefix []int) {
 	ex.sawUnknown = false
 	ex.uuids = nil
 	ex.held = nil
-	ex.pending = nil
 	ex.rpcPeer = nil
 	ex.notes = nil
 	ex.assumes = 0
-	ex.inGo = false
-	ex.blockedGo = 0
+	ex.killCoros()
+	ex.cur = nil
+	ex.scheduling = false
+	ex.mainParks = 0
+	ex.goPanic = nil
 	ex.schedNondet = false
 	ex.ptrIDs = nil
 	ex.lazyLog = nil
@@ -599,6 +603,10 @@ func (ex *exec) runPath1(entry *ssa.Function, prefix []int, wantSample bool) (ou
 	ex.stats.paths++
 	defer func() {
 		ex.stats.instrs += int64(ex.steps)
+		func() {
+			defer func() { recover() }()
+			ex.killCoros()
+		}()
 		out.failures = ex.failures
 		out.alts = ex.alts
 		out.reach = ex.reach
@@ -611,6 +619,8 @@ func (ex *exec) runPath1(entry *ssa.Function, prefix []int, wantSample bool) (ou
 					out.status = "ok"
 				case "unsupported", "incomplete", "assume", "infeasible":
 					out.status, out.reason = p.kind, p.reason
+				case "blocked":
+					out.status, out.reason = "incomplete", "main thread blocked: "+p.reason
 				default:
 					out.status, out.reason = "internal", p.kind+": "+p.reason
 				}
